@@ -61,7 +61,8 @@ def one_exec(cfg, fail, corrupt):
             dest_before = objects_only(store_snapshot(xw.dest.path))
             plan = Plan(fail_oids=fail, enoent=cfg.get("enoent", False))
             try:
-                res = xw.transfer(ids, plan=plan, shallow=shallow, verify=cfg["verify"])
+                res = xw.transfer(ids, plan=plan, shallow=shallow, verify=cfg["verify"],
+                                  **({"hardlink": True} if cfg.get("hardlink") else {}))
             except Exception as e:  # noqa: BLE001
                 viol.append((f"transfer-raises-{type(e).__name__}", repr(e)))
                 return viol, info
@@ -205,6 +206,8 @@ def hist_case(case):
 def run_case(case):
     if case.get("part") == "hist":
         return hist_case(case)
+    if case.get("part") == "fetch":
+        return fetch_case(case)
     cfg = case["cfg"]
     trees = SCENARIOS[cfg["scenario"]]
     files = files_of_trees(trees)
@@ -249,6 +252,9 @@ def run_case(case):
 def replay(case):
     if case.get("part") == "hist":
         return hist_exec({k: v for k, v in case.items() if k != "part"})
+    if case.get("part") == "fetch":
+        v = fetch_exec({k: v for k, v in case.items() if k != "part"})[0]
+        return [(f"fetch-level/{s_}", d_) for s_, d_ in v]
     return one_exec(case["cfg"], case["fail"], case["corrupt"])[0]
 
 
@@ -268,6 +274,92 @@ def configs(tier):
                                 continue
                             yield {"scenario": s, "shape": shape, "src": src, "dest0": dest0,
                                    "dest": dest, "verify": verify}
+
+
+def configs_hardlink():
+    # hard-linking adds (local source and destination on one file system) under verify
+    for s in ("one", "sharing"):
+        for shape in ("closed", "expanded"):
+            yield {"scenario": s, "shape": shape, "src": "complete", "dest0": "empty", "dest": "local",
+                   "verify": True, "hardlink": True}
+
+
+def fetch_exec(cfg):
+    """index-level fetch from a remote store configured to verify, into a cache that is not: what the remote
+    cannot deliver intact (protected objects with wrong bytes) is counted failed and never reaches the cache."""
+    import os
+
+    from dvc_data.hashfile.hash_info import HashInfo
+    from dvc_data.hashfile.meta import Meta
+    from dvc_data.index import DataIndex, DataIndexEntry, ObjectStorage
+    from dvc_data.index.collect import collect
+    from dvc_data.index.fetch import fetch
+
+    from ..lab import make_odb, put_raw
+
+    trees = SCENARIOS[cfg["scenario"]]
+    files = files_of_trees(trees)
+    dirs = [TREE_OID[t] for t in trees]
+    corrupt = set(cfg["corrupt"])
+    viol = []
+    with World() as w:
+        remote = make_odb("base", w.p("remote"), verify=cfg["remote_verify"])
+        cache = make_odb("local", w.p("cache"), verify=cfg["cache_verify"])
+        for o in files + dirs:
+            p_ = put_raw(remote, o, (b"CORRUPT:" if o in corrupt else b"") + OID_BYTES[o])
+            os.chmod(p_, 0o444)
+        idx = DataIndex()
+        for t in trees:
+            idx[(t,)] = DataIndexEntry(key=(t,), meta=Meta(isdir=True), hash_info=HashInfo("md5", TREE_OID[t]))
+        idx.storage_map.add_cache(ObjectStorage((), cache))
+        idx.storage_map.add_remote(ObjectStorage((), remote))
+        try:
+            fetched, failed = fetch(collect([idx], "remote"))
+        except Exception as e:  # noqa: BLE001
+            return [(f"fetch-raises-{type(e).__name__}", repr(e))], {}
+        snap = objects_only(store_snapshot(cache.path))
+        # (fetch verifies iff the *remote* is configured to: it passes that flag explicitly, which by design
+        # overrides the cache's own setting)
+        verify = cfg["remote_verify"]
+        for o, (data, _m) in snap.items():
+            if verify and isinstance(data, bytes) and ref.md5(data) != o.split(".")[0]:
+                viol.append(("fetch-under-verify-left-mismatching-object", name_of(o)))
+        arrived = len(snap)
+        if fetched != arrived:
+            viol.append(("fetched-count-differs-from-objects-in-cache", f"fetched={fetched} failed={failed} arrived={arrived} corrupt={[name_of(c) for c in corrupt]}"))
+        if verify and corrupt and not failed:
+            viol.append(("undeliverable-objects-but-no-failure-reported", f"fetched={fetched} corrupt={[name_of(c) for c in corrupt]}"))
+        if not corrupt and (failed or arrived != len(files + dirs)):
+            viol.append(("clean-fetch-incomplete", f"fetched={fetched} failed={failed} arrived={arrived}"))
+    return viol, {"fetched": fetched, "failed": failed}
+
+
+def fetch_case(case):
+    res = {"n": 0, "trans": 0, "states": [], "outcomes": set(), "nontrivial": set(), "viol": [],
+           "vac": {"fetch_level_runs": 0}}
+    sigs = set()
+    trees = SCENARIOS[case["scenario"]]
+    files = files_of_trees(trees)
+    for rv, cv in ((True, False), (False, True), (False, False), (True, True)):
+        for corrupt in subsets(files):
+            cfg = {"scenario": case["scenario"], "remote_verify": rv, "cache_verify": cv, "corrupt": list(corrupt)}
+            viol, info = fetch_exec(cfg)
+            res["n"] += 1
+            res["trans"] += 2
+            res["vac"]["fetch_level_runs"] += 1
+            d = digest_obj(cfg)
+            res["states"].append(d)
+            if corrupt:
+                res["nontrivial"].add(d)
+            res["outcomes"].add(repr((sorted(v[0] for v in viol), info)))
+            for sig, detail in viol:
+                sig = f"fetch-level/{sig}"
+                if sig not in sigs:
+                    sigs.add(sig)
+                    res["viol"].append((sig, detail, dict(cfg, part="fetch")))
+    res["outcomes"] = sorted(res["outcomes"])
+    res["nontrivial"] = sorted(res["nontrivial"])
+    return res
 
 
 def configs_enoent():
@@ -295,7 +387,9 @@ def run(ctx):
         "an expanded request needs its directory object to be loadable from the source",
     ]
     ctx.require("faults_fired", "verify_corrupt_runs", "both_sides_missing_runs", "already_present_runs",
-                "stale_index_histories")
+                "stale_index_histories", "fetch_level_runs")
     cs = [{"cfg": c} for c in configs(ctx.tier)] + [{"cfg": c} for c in configs_enoent()]
+    cs += [{"cfg": c} for c in configs_hardlink()]
+    cs += [{"part": "fetch", "scenario": s_} for s_ in ("one", "sharing")]
     cs += [{"part": "hist", "dest": d} for d in ("base", "local")]
     ctx.run_cases("run_case", cs, chunksize=1, det=4)
